@@ -44,7 +44,7 @@ func init() {
 			"executions must agree, conservation law sum(COUNT(*)) = |rows passing WHERE|, groups pairwise distinct. Non-trivial: >=2 groups " +
 			"with one of size >=2, or whole-table with WHERE rejecting >=1 row, or two calls of one aggregate function.",
 		Assumptions: []string{
-			"a third of the cases run inside an envelope that must not change the result: PostgresEscapingDialect / IdiomaticArrays on (the query uses neither double quotes nor brackets), Wrapped() with FROM root.<table>, tables handed over as []map[string]any, and a second execution on the same input object",
+			"a third of the cases run inside an envelope that must not change the result: PostgresEscapingDialect / IdiomaticArrays on (the query uses neither double quotes nor brackets), Wrapped() with FROM root.<table>, tables handed over as []map[string]any, a second execution on the same input object, and the same query text run before on a different document",
 			"scalar grouping keys only; AVG and COUNT(col) only on non-nullable columns (as the statement says)",
 			"aggregate arguments are plain columns",
 		},
@@ -82,7 +82,7 @@ func genC03(t *rapid.T) any {
 			l := fmt.Sprintf("g%d.v%d", i, j)
 			switch kind {
 			case "str":
-				c.Pool = append(c.Pool, rapid.SampledFrom([]string{"a", "b", "A", "", "x y", "1", "ab"}).Draw(t, l))
+				c.Pool = append(c.Pool, rapid.SampledFrom([]string{"a", "b", "A", "", "x y", "1", "ab", "1.0", "01", "1", "1e0", "7", "007", " a", "a "}).Draw(t, l))
 			case "int":
 				c.Pool = append(c.Pool, rapid.SampledFrom([]float64{0, 1, 2, -1, 10}).Draw(t, l))
 			default:
